@@ -291,7 +291,27 @@ func tail(s string) string {
 
 func run(t interface{ Fatalf(string, ...any) }, c *Case, sub string) {
 	evid.Inflight(prop, sub, c, c.Summary())
-	f, err := oracle(c)
+	var f facts
+	var err error
+	werr, hung, slow := fix.Watchdog(120*time.Second, []string{"[chan receive+updog.(*Index).Execute", "[select+updog.(*Index).Execute", "[semacquire+updog.(*Index).Execute", "[sync.Cond.Wait+updog.(*Index).Execute", "[sync.WaitGroup.Wait+updog.(*Index).Execute", "[sync.Mutex.Lock+updog.(*Index).Execute", "[sync.RWMutex.RLock+updog.(*Index).Execute"}, func() error {
+		var e error
+		f, e = oracle(c)
+		return e
+	})
+	err = werr
+	if hung != "" {
+		// goroutines are stuck inside Execute: record the case and leave (they
+		// would keep the index and its locks forever)
+		herr := fmt.Errorf("concurrent Execute calls never return: goroutine stuck:\n%s", hung)
+		evid.WriteCase(prop, sub, c, c.Summary(), herr)
+		evid.ClearInflight(prop, sub)
+		evid.Flush()
+		fmt.Printf("HANG: %v\n", herr)
+		os.Exit(3)
+	}
+	if slow {
+		panic("INFRA: concurrent case slow (>120s) but no goroutine provably stuck in Execute")
+	}
 	evid.ClearInflight(prop, sub)
 	if err != nil && strings.HasPrefix(err.Error(), "INFRA:") {
 		panic(err.Error())
@@ -357,6 +377,29 @@ func drawCase(t *rapid.T, maxN int, server bool) *Case {
 	for i := 0; i < 6; i++ {
 		shared = append(shared, pool.Expr(t, gen.ExprOpts{MaxDepth: 3}))
 	}
+	// identical queries that FAIL (unknown column), some of them wide, issued
+	// by several goroutines at once
+	for i := 0; i < 2; i++ {
+		n := rapid.SampledFrom([]int{2, 8, 9, 16, 20}).Draw(t, "failwidth")
+		subs := make([]model.Expr, n)
+		for j := range subs {
+			subs[j] = pool.Leaf(t, gen.ExprOpts{})
+		}
+		subs[rapid.IntRange(0, n-1).Draw(t, "failat")] = model.Eq("no_such_column", "x")
+		if rapid.Bool().Draw(t, "failop") {
+			shared = append(shared, model.And(subs...))
+		} else {
+			shared = append(shared, model.Or(subs...))
+		}
+	}
+	// the column with the MOST values (first group-by on a big column from
+	// several goroutines at once), bounded for cost
+	big := ""
+	for _, pc := range pool.Cols {
+		if n := len(d.Values(pc)); n <= 6000 && (big == "" || n > len(d.Values(big))) {
+			big = pc
+		}
+	}
 	ng := rapid.IntRange(2, 16).Draw(t, "goroutines")
 	for g := 0; g < ng; g++ {
 		var w []Q
@@ -372,6 +415,9 @@ func drawCase(t *rapid.T, maxN int, server bool) *Case {
 				// group by the column with the fewest values to bound the cost
 				if rapid.Bool().Draw(t, "gb") && best != "" && len(d.Values(best)) <= 1200 {
 					q.GroupBy = []string{best}
+				}
+				if big != "" && rapid.IntRange(0, 2).Draw(t, "gbbig") == 0 && !d.Rejects(q.Expr, nil) {
+					q.GroupBy = []string{big}
 				}
 				w = append(w, q)
 			default:
@@ -417,6 +463,18 @@ func cacheOracle(c *CacheCase) (int64, error) {
 	wasPut := make([]atomic.Bool, c.Keys)
 	_, errs := fanout(c.Goroutines, func(g int) error {
 		x := uint32(c.Pattern*7919 + g*104729 + 1)
+		if c.Pattern%2 == 0 {
+			// all goroutines start by storing the same, not yet cached keys in
+			// the same order: concurrent first Put of one key
+			for k := 0; k < c.Keys; k++ {
+				bm := roaring.New()
+				bm.Add(uint32(k))
+				bm.Add(uint32(2000 + g))
+				cache.Put(uint64(k), bm)
+				wasPut[k].Store(true)
+				puts.Add(1)
+			}
+		}
 		for i := 0; i < c.OpsPer; i++ {
 			x = x*1664525 + 1013904223
 			k := uint64(x>>8) % uint64(c.Keys)
@@ -475,8 +533,42 @@ func cacheOracle(c *CacheCase) (int64, error) {
 			}
 		}
 	}
-	gets.Add(int64(3*c.Keys) + wasPutGets(c, wasPut))
-	puts.Add(int64(3 * c.Keys))
+	// LRU order from the post-concurrency state: key k is stored and then
+	// looked up after every further insertion of a fresh filler key; being
+	// the most recently used entry all the time it can never be the one
+	// that is evicted (an orphaned duplicate of k further back in the
+	// recency list, or a stale map entry, shows up here)
+	var extraGets, extraPuts int64
+	if c.Cap >= 4000 {
+		// every key is stored, then fresh filler entries are inserted until the
+		// whole capacity has been turned over once; after each insertion every
+		// key is looked up (so the keys stay the most recently used entries)
+		mine := make([]*roaring.Bitmap, c.Keys)
+		for k := 0; k < c.Keys; k++ {
+			mine[k] = roaring.New()
+			mine[k].Add(uint32(k))
+			cache.Put(uint64(k), mine[k])
+			extraPuts++
+		}
+		fillers := int(c.Cap/40) + 100
+		next := uint64(1 << 40)
+		for i := 0; i < fillers; i++ {
+			fb := roaring.New()
+			fb.Add(uint32(i))
+			next++
+			cache.Put(next, fb)
+			extraPuts++
+			for k := 0; k < c.Keys; k++ {
+				got, ok := cache.Get(uint64(k))
+				extraGets++
+				if !ok || !got.Equals(mine[k]) {
+					return 0, fmt.Errorf("epilogue after the concurrent phase (capacity %d): the %d keys were stored and are looked up after every insertion of a fresh small entry, so they are the most recently used entries throughout and fit many times over - yet key %d is gone after insertion %d", c.Cap, c.Keys, k, i+1)
+				}
+			}
+		}
+	}
+	gets.Add(int64(3*c.Keys) + wasPutGets(c, wasPut) + extraGets)
+	puts.Add(int64(3*c.Keys) + extraPuts)
 	if cn.get.N.Load() != gets.Load() || cn.put.N.Load() != puts.Load() || cn.hit.N.Load()+cn.miss.N.Load() != gets.Load() {
 		return 0, fmt.Errorf("counters get/put/hit/miss = %d/%d/%d/%d but %d Gets and %d Puts were issued", cn.get.N.Load(), cn.put.N.Load(), cn.hit.N.Load(), cn.miss.N.Load(), gets.Load(), puts.Load())
 	}
